@@ -48,7 +48,10 @@ EXTRA_VALUES = ["[1]", "[1, 2]", "(1, 2)", "{1, 2}", "{'a': 1, 'b': 2}", "[1.5]"
                 "Decimal('1.5')", "Decimal('1582156800.5')",
                 # collections of mappings / pairs as input of a mapping target
                 "[{'a': 1, 'b': 2}]", "[{'a': 1, 'b': 2}, {'c': 3, 'd': 4}]", "[('a', 1)]", "[['a', 1], ['b', 2]]", "({'a': 1},)",
-                "[{'a': 1}, ('b', 2)]"]
+                "[{'a': 1}, ('b', 2)]",
+                # mappings that are not dicts
+                "[__import__('types').MappingProxyType({'a': 1, 'b': 2})]", "[__import__('collections').ChainMap({'a': 1, 'b': 2})]",
+                "__import__('types').MappingProxyType({'a': 1, 'b': 2})", "(__import__('collections').OrderedDict(a=1, b=2),)"]
 
 
 def bounds(tier):
@@ -413,6 +416,16 @@ def _dataclass(acc):
                                   "import sys\nsys.path.insert(0, '/verif')\nfrom utmc.ns import *\n" + src +
                                   f"try:\n    print(type_transform({vx}, S, options=Options(**{FLAGS[oi]!r}))); sys.exit(1)\n"
                                   f"except Exception as e:\n    print('rejected:', type(e).__name__, e); sys.exit(0)\n")
+            for oi in (2, 3):
+                # the same flags next to an explicitly spelled addition=None (Options(**settings))
+                try:
+                    r2 = ("ok", s_cls.__from__(ev(vx), options=_NS["Options"](addition=None, **FLAGS[oi])))
+                except Exception as e:
+                    r2 = ("err", e)
+                acc.transitions += 1
+                if r2[0] == "ok" and isinstance(x, dict) and (set(x) - {"a", "b"}):
+                    v(f"no-data-loss-unknown-keys-explicit-addition-none-{'+'.join(sorted(FLAGS[oi]))}",
+                      f"unknown keys {sorted(set(x) - {'a', 'b'})} were dropped silently under Options(addition=None, **{FLAGS[oi]})")
             for oi in (2, 3):
                 r = res[oi]
                 flags = "+".join(sorted(FLAGS[oi]))
